@@ -468,6 +468,36 @@ func Run(t *testing.T, s *Spec) {
 		clearCurrent(s, env)
 		col.Tick()
 		col.MarkRun(s.Hash(plan), curFlags.nontrivial)
+		if dg := os.Getenv("VERIF_DIGEST"); dg != "" {
+			// determinism self-test: one line per run, a pure function of what
+			// the run did (plan, every counter the engine moved, violations)
+			col.mu.Lock()
+			names := make([]string, 0, len(col.Counters))
+			for n := range col.Counters {
+				if !strings.HasPrefix(n, "nd_") && n != "child_retries" {
+					names = append(names, n)
+				}
+			}
+			sort.Strings(names)
+			var sb strings.Builder
+			for _, n := range names {
+				fmt.Fprintf(&sb, "%s=%d;", n, col.Counters[n])
+			}
+			col.mu.Unlock()
+			var cls []string
+			for _, v := range vs {
+				cls = append(cls, fmt.Sprintf("%s@%d", v.Class, v.Step))
+			}
+			f, err := os.OpenFile(dg, os.O_APPEND|os.O_CREATE|os.O_WRONLY, 0o644)
+			if err == nil {
+				fmt.Fprintf(f, "%d %d %016x %016x %v\n", k, seed, s.Hash(plan), HashString(sb.String()), cls)
+				f.Close()
+			}
+			if f, err := os.OpenFile(dg+".full", os.O_APPEND|os.O_CREATE|os.O_WRONLY, 0o644); err == nil {
+				fmt.Fprintf(f, "%d %s\n", k, strings.ReplaceAll(sb.String(), ";", "\n  "))
+				f.Close()
+			}
+		}
 		for _, v := range vs {
 			if v.Class == "harness-panic" {
 				// a defect of the harness is infrastructure trouble, never a VIOLATION
